@@ -227,7 +227,7 @@ NASTY_ASCII = [b'<b>', b'a&b', b'"q"', b"it's", b'x\x01y', b'tab\there', b']]>',
 NASTY_BYTES = [b'caf\xe9', b'\x80\x85\x9f', b'\x81 \x8d', b'\xa0\xff', b'100\xb0C', b'\x93quoted\x94']
 
 
-def build_nasty_dlis(rng):
+def build_nasty_dlis(rng, force=None):
     """an RP66V1 file (as C03/C04) whose long names, units, descriptions and values carry markup, quotes, control characters
     and (in ASCII-typed values) bytes above 0x7f.  Returns (bytes, truth)."""
     from ..gen import dlis as GD, dlislog as GLg
@@ -254,6 +254,13 @@ def build_nasty_dlis(rng):
                 fnos = rng.choice([fnos, fnos, [1, 3] + list(range(4, n_ + 1)) + [2 * n_ - 1], [1, 2, 3] + [k_ + 9 for k_ in range(4, n_ + 1)]])
             # (an index in milliseconds since 1970 is a number of the size 1.6e12: half a unit is far below a billionth of it, and is still a step)
             xbase = 1.6e12 if chs[0]['rc'] == 7 and rng.random() < 0.5 else 0.0
+            if force is not None and lf == 0 and t == 0:
+                # the first files of every run: a double-precision index of twelve frames, uneven in each of the three ways, small and of
+                # the size 1.6e12; frame numbers with gaps of both shapes (not drawn)
+                chs[0]['rc'], n_ = 7, 12
+                xr = [[0, 1, 1] + list(range(3, n_)), [0, 2] + list(range(3, n_)) + [2 * (n_ - 1)], [0, 1, 2] + [k_ + 7 for k_ in range(3, n_)]][force % 3]
+                fnos = [[1, 3] + list(range(4, n_ + 1)) + [2 * n_ - 1], [1, 2, 3] + [k_ + 9 for k_ in range(4, n_ + 1)], list(range(1, n_ + 1))][(force // 2) % 3]
+                xbase = 1.6e12 if force % 2 == 0 else 0.0
             types.append(dict(name=b'FT%d' % t, c=0, channels=chs, n=n_, xr=xr, xbase=xbase, fnos=fnos, description=rng.choice(NASTY_ASCII)))
         if ntypes == 2 and rng.random() < 0.4:
             # two COPIES of one frame object name (same origin and identifier, copy numbers 0 and 1): two frame types
@@ -401,7 +408,7 @@ def real_writers_rp66_lis(ctx, rng, traces, parsed_l, ok_l, meta):
         return doc, ok
 
     for t in range(ctx.pick(30, 250)):
-        data, truth = build_nasty_dlis(rng)
+        data, truth = build_nasty_dlis(rng, force=t if t < 6 else None)
         pin = os.path.join(wd, 'f%d.dlis' % t)
         with open(pin, 'wb') as f:
             f.write(data)
